@@ -5,13 +5,16 @@
 (*   state    (y, l) of dimension d + 1, l(t0) = 0                              *)
 (*   drift    (f, 1/2 |u|^2),  u = g^+ (f - h)   (h = prior drift)              *)
 (*              diagonal noise: u_i = (f_i - h_i) / g_i                         *)
-(*              otherwise     : u = (g^T g)^-1 g^T (f - h)  (full column rank)  *)
+(*              otherwise     : u = (g^T g)^-1 g^T (f - h)  (full column rank;    *)
+(*                              = g^-1 (f - h) when g is square)                *)
 (*   diffusion  (g, 0): a zero row for l (diagonal: a zero entry)               *)
 (*   outputs  the first d components, and  l(ts[i+1]) - l(ts[i]),              *)
 (*            i = 1..len(ts)-1                                                  *)
 (*                                                                              *)
-(* TLC enumerates noise type x solver x constant vector c x time layout with    *)
-(* h = f - g c (so u = c exactly) and checks, for every scenario:               *)
+(* TLC enumerates noise type x solver x shape x constant vector c x time layout *)
+(* with h = f - g c (so u = c exactly) - including a badly scaled g of full     *)
+(* column rank (columns of size 1 and 2^-22, condition number > 1e6): "exact    *)
+(* for all full-column-rank g" - and checks, for every scenario:                *)
 (*   Shape            len(ts) - 1 increments                                    *)
 (*   ExactValue       increment i = 1/2 |c|^2 (ts[i+1] - ts[i])   (printed)     *)
 (*   NonNegative      every increment >= 0                                      *)
@@ -53,7 +56,15 @@ UCol2(sde)  ==      \* m = 2:  (g^T g)^-1 g^T r  by the adjugate
        det == S!ESub(S!EMul(M(1, 1), M(2, 2)), S!EMul(M(1, 2), M(1, 2)))
    IN <<S!EDiv(S!ESub(S!EMul(M(2, 2), B(1)), S!EMul(M(1, 2), B(2))), det),
         S!EDiv(S!ESub(S!EMul(M(1, 1), B(2)), S!EMul(M(1, 2), B(1))), det)>>
-UExpr(sde) == IF sde.nt = "diagonal" THEN UDiag(sde) ELSE IF sde.m = 1 THEN UCol1(sde) ELSE UCol2(sde)
+USquare2(sde) ==    \* d = m = 2, full rank: the pseudo-inverse is the inverse (adjugate / determinant); unlike the
+                    \* normal equations this does not square the condition number, so badly scaled g stays in 32 bits
+   LET r == Resid(sde)
+       g == sde.g
+       det == S!ESub(S!EMul(g[1][1], g[2][2]), S!EMul(g[1][2], g[2][1]))
+   IN <<S!EDiv(S!ESub(S!EMul(g[2][2], r[1]), S!EMul(g[1][2], r[2])), det),
+        S!EDiv(S!ESub(S!EMul(g[1][1], r[2]), S!EMul(g[2][1], r[1])), det)>>
+UExpr(sde) == IF sde.nt = "diagonal" THEN UDiag(sde) ELSE IF sde.m = 1 THEN UCol1(sde)
+              ELSE IF sde.d = 2 THEN USquare2(sde) ELSE UCol2(sde)
 KLDrift(sde) == LET u == UExpr(sde)
                 IN S!EMul(S!EC(RHalf), ESumSeq(TLCEval([k \in 1..Len(u) |-> S!EMul(u[k], u[k])])))
 
@@ -117,6 +128,16 @@ LProb32(nt, cal) ==
            ELSE <<<<P(5), S!E0>>, <<S!EMul(P(6), Y(1)), P(5)>>, <<S!E0, S!EAdd(P(7), Y(2))>>>>,
            <<Q(1,2), Q(-1,2), Q(1,2), Q(1,1), Q(1,1), Q(1,2), Q(2,1)>>, <<Q(1,2), Q(1,1), Q(-1,2)>>)
 
+(* badly scaled but full-column-rank g (condition number about 2^22 > 1e6): second column 2^-22 *)
+Tiny == R(1, 4194304)
+LProbBad(nt, cal) ==
+   LET Y(i) == S!EY(i)
+       P(k) == S!EP(k)
+   IN S!Mk(nt, cal, 2, 2, <<S!P1(1, Y(1)), S!EAdd(S!EMul(P(4), Y(1)), S!ET)>>,
+           IF nt = "additive" THEN <<<<S!EAdd(P(5), S!ET), S!E0>>, <<P(6), S!EC(Tiny)>>>>
+           ELSE <<<<S!EAdd(P(5), S!EMul(P(6), Y(1))), S!E0>>, <<P(8), S!EC(Tiny)>>>>,
+           <<Q(1,2), Q(-1,2), Q(1,2), Q(1,1), Q(1,1), Q(1,2), Q(2,1), Q(1,2)>>, <<Q(1,2), Q(1,1)>>)
+
 CVecs(k) == IF k = 1 THEN {<<Q(1,1)>>, <<Q(-3,2)>>} ELSE {<<Q(1,1), Q(-1,2)>>, <<Q(0,1), Q(2,1)>>}
 CFor(sde) == CVecs(IF sde.nt = "diagonal" THEN sde.d ELSE sde.m)
 HalfNormSq(sde, cv) == LET k == IF sde.nt = "diagonal" THEN sde.d ELSE sde.m
@@ -125,12 +146,14 @@ HalfNormSq(sde, cv) == LET k == IF sde.nt = "diagonal" THEN sde.d ELSE sde.m
 Cals == {"ito", "stratonovich"}
 Shapes(nt) == CASE nt = "diagonal" -> {<<1, 1>>, <<2, 2>>}
                 [] nt = "scalar"   -> {<<1, 1>>, <<2, 1>>}
-                [] nt = "additive" -> {<<1, 1>>, <<2, 2>>, <<3, 2>>}
-                [] nt = "general"  -> {<<1, 1>>, <<2, 2>>, <<3, 2>>}
-ProbFor(nt, cal, dm) == IF dm = <<3, 2>> THEN LProb32(nt, cal) ELSE LProb(nt, cal, dm[1])
+                [] nt = "additive" -> {<<1, 1>>, <<2, 2>>, <<3, 2>>, <<2, 2, "bad">>}
+                [] nt = "general"  -> {<<1, 1>>, <<2, 2>>, <<3, 2>>, <<2, 2, "bad">>}
+(* a shape is <<d, m>> or <<d, m, "bad">> (badly scaled columns; additive and general noise) *)
+IsBad(dm) == Len(dm) = 3
+ProbFor(nt, cal, dm) == IF IsBad(dm) THEN LProbBad(nt, cal) ELSE IF dm = <<3, 2>> THEN LProb32(nt, cal) ELSE LProb(nt, cal, dm[1])
 LLayouts == IF Tier = "quick" THEN {<<1, "inner">>, <<2, "clip">>} ELSE {<<1, "inner">>, <<1, "quarter">>, <<2, "clip">>, <<2, "grid">>, <<3, "end">>}
 (* exact rationals of these combinations leave 32 bits *)
-Feasible(me, dm, n) == (me = "srk" => n = 1) /\ (dm = <<3, 2>> => n = 1) /\ (n = 3 => dm = <<1, 1>>)
+Feasible(me, dm, n) == (me = "srk" => n = 1) /\ (dm = <<3, 2>> => n = 1) /\ (n = 3 => dm = <<1, 1>>) /\ (IsBad(dm) => n = 1)
 
 Init == stage = "noise" /\ sc = <<>>
 ChooseNoise  == /\ stage = "noise"
@@ -161,7 +184,8 @@ TheCase == S!Case(WithPrior(ProbFor(sc.nt, sc.cal, sc.dm), sc.c), sc.method, FAL
 Refine(ts) == TLCEval([i \in 1..(2 * Len(ts) - 1) |->
                  IF i % 2 = 1 THEN ts[(i + 1) \div 2] ELSE RMul(RHalf, RAdd(ts[i \div 2], ts[i \div 2 + 1]))])
 PairSums(x) == TLCEval([i \in 1..(Len(x) \div 2) |-> RAdd(x[2 * i - 1], x[2 * i])])
-Key == [nt |-> sc.nt, method |-> sc.method, cal |-> sc.cal, d |-> sc.dm[1], m |-> sc.dm[2], n |-> sc.n, lay |-> sc.lay]
+Key == [nt |-> sc.nt, method |-> sc.method, cal |-> sc.cal, d |-> sc.dm[1], m |-> sc.dm[2], n |-> sc.n, lay |-> sc.lay,
+        bad |-> IsBad(sc.dm)]
 
 LogqpOK ==
    stage = "check" =>
